@@ -25,6 +25,13 @@
    the failure to the entry point) and is not modelled. *)
 EXTENDS PegTypes, TextPos, TLC
 
+(* "none" everywhere except in the vacuity-guard configurations of MC_Peg, where one rule is
+   deliberately broken and TLC must report the corresponding law as violated:
+   "not" (not_ moves the position), "alt" (the right alternative does not start at the entry
+   position), "rep" (a repetition fails when its first element fails), "opt" (optional does not
+   restore the position), "fatal" (alternative tries the right side after a fatal error) *)
+CONSTANT Bug
+
 InSeq(c, cs) == \E i \in 1..Len(cs) : cs[i] = c
 
 Ok(p, v, pr) == [ok |-> TRUE, fatal |-> FALSE, pos |-> p, val |-> v, probes |-> pr]
@@ -136,13 +143,14 @@ Parse(g, sk, s, p, ps) ==
          \* left at p; success -> that; fatal -> that; otherwise right at p (rewound)
          LET l == Parse(g.l, sk, s, p, ps) IN
          IF l.ok THEN Ok(l.pos, AltVal(g.ty, g.l.ty, l.val), l.probes)
-         ELSE IF l.fatal THEN l
-         ELSE LET r == Parse(g.r, sk, s, p, ps) IN
+         ELSE IF l.fatal /\ Bug # "fatal" THEN l
+         ELSE LET r == Parse(g.r, sk, s, IF Bug = "alt" /\ p < Len(s) THEN p + 1 ELSE p, ps) IN
               IF r.ok THEN Ok(r.pos, AltVal(g.ty, g.r.ty, r.val), l.probes \o r.probes)
               ELSE Fail(r.fatal, l.probes \o r.probes)
     [] g.k = "rep" ->
          LET r == RepLoop(g.g, sk, s, p, <<>>, <<>>, ps) IN
-         IF r.ok THEN Ok(r.pos, RepVal(g.g.ty, r.val), r.probes) ELSE r
+         IF Bug = "rep" /\ r.ok /\ r.val = <<>> THEN Fail(FALSE, r.probes)
+         ELSE IF r.ok THEN Ok(r.pos, RepVal(g.g.ty, r.val), r.probes) ELSE r
     [] g.k = "plus" ->
          \* p >> *p with the head prepended
          LET h == Parse(g.g, sk, s, p, ps) IN
@@ -156,11 +164,12 @@ Parse(g, sk, s, p, ps) ==
          LET e == Parse(g.g, sk, s, p, ps) IN
          IF e.ok THEN Ok(e.pos, VSome(e.val), e.probes)
          ELSE IF e.fatal THEN e
-         ELSE Ok(p, VNone, e.probes)
+         ELSE Ok(IF Bug = "opt" /\ p < Len(s) THEN p + 1 ELSE p, VNone, e.probes)
     [] g.k = "not" ->
          \* always rewinds; a failure of the operand - fatal or not - is a success
          LET e == Parse(g.g, sk, s, p, ps) IN
-         IF e.ok THEN Fail(FALSE, e.probes) ELSE Ok(p, VUnit, e.probes)
+         IF e.ok THEN Fail(FALSE, e.probes)
+         ELSE Ok(IF Bug = "not" /\ p < Len(s) THEN p + 1 ELSE p, VUnit, e.probes)
     [] g.k = "fatal" -> LET e == Parse(g.g, sk, s, p, ps) IN IF e.ok THEN e ELSE Fail(TRUE, e.probes)
     [] g.k = "named" -> LET e == Parse(g.g, sk, s, p, ps) IN IF e.ok THEN e ELSE Fail(FALSE, e.probes)
     [] g.k = "lexeme" -> Parse(g.g, EpsSk, s, p, ps)
